@@ -100,14 +100,61 @@ def emit(vf, exp, path, fr, ind):
 pub fn decode(par: &mut Parser) -> (r: Result<DataType, RtcmError>)
     ensures final(par).nz(),
 { unimplemented!() }""").replace('\n', '\n' + ind))
+    vf.emit('\n'.join(ind + l for l in (DEC_SPEC % {'SAT': SAT, 'SIG': SIG}).split('\n')))
     sp = FnSpec(); sp.ret = 'r'; sp.body_props = {'C02', 'C10'}
     sp.rename = 'decode_checked'
+    sp.attrs = '#[verifier::rlimit(80)]'
     sp.replace = [(r'\b(asm|par)\.(put|parse)::<(\w+)>\(', r'\1.\2_\3(', 'R6 generic L0 call monomorphised')]
-    sp.ensures = []
+    sp.ensures = [
+        ('l2.%s.decode.rows_are_the_mask_cells' % pid, {'C10', 'C01'},
+         # (the two trivially true length conjuncts put the row views into the solver's term graph as ground terms; without them the witness is not matched)
+         'r is Ok ==> r->Ok_0.satellite_data@.len() >= 0 && r->Ok_0.signal_data@.len() >= 0\n'
+         '    && exists|sm: u64, gm: u32, cm: u64| #[trigger] decoded_ok(old(par).rest(), sm, gm, cm, r->Ok_0.satellite_data@, r->Ok_0.signal_data@)'),
+        ('l2.%s.decode.error_kinds' % pid, {'C10', 'C02'},
+         'r is Err ==> (r->Err_0 is BufferOverflow || r->Err_0 is InvalidSatelliteSignalCount || r->Err_0 is InvalidSignalId)'),
+        ('l2.%s.decode.cell_count_out_of_range_rejected' % pid, {'C10', 'C02'},
+         '''(exists|sm: u64, gm: u32| #![trigger crate::bits_of_int(sm as int, 64), crate::bits_of_int(gm as int, 32)] old(par).rest().len() >= 96
+            && crate::bits_of_int(sm as int, 64) == old(par).rest().subrange(0, 64) && crate::bits_of_int(gm as int, 32) == old(par).rest().subrange(64, 96)
+            && !(sm == 0 && gm == 0)
+            && (crate::msg::ids64(sm, 64).len() * crate::msg::ids32(gm, 32).len() > 64 || crate::msg::ids64(sm, 64).len() * crate::msg::ids32(gm, 32).len() == 0))
+        ==> r is Err && r->Err_0 is InvalidSatelliteSignalCount'''),
+    ]
+    B = sp.inserts.append
+    B(('before', 'let sat_mask = par.parse_U64(64)?;', 0, 'let ghost verif_s0 = par.rest();'))
+    B(('after', 'let sig_mask = par.parse_U32(32)?;', 0,
+       '''proof {
+    crate::lemma_consume(verif_s0, 0, 64); crate::lemma_consume(verif_s0, 64, 32);
+    assert(verif_s0.subrange(0, verif_s0.len() as int) =~= verif_s0);
+    crate::msg::lemma_ids64_len(sat_mask, 64); crate::msg::lemma_ids32_len(sig_mask, 32);
+    crate::msg::lemma_cnt64_popcount(sat_mask, 64); crate::msg::lemma_cnt32_popcount(sig_mask, 32);
+    crate::lemma_pow2_64_32();
+    assert forall|sm: u64, gm: u32| crate::bits_of_int(sm as int, 64) == verif_s0.subrange(0, 64) && crate::bits_of_int(gm as int, 32) == verif_s0.subrange(64, 96)
+        implies sm == sat_mask && gm == sig_mask by { crate::lemma_bits_inj(sm as int, sat_mask as int, 64); crate::lemma_bits_inj(gm as int, sig_mask as int, 32); }
+}'''))
+    B(('before', 'return Ok(', 0,
+       'proof { assert(decoded_ok(verif_s0, sat_mask, sig_mask, 0u64, Seq::<%s>::empty(), Seq::<%s>::empty())); }' % (SAT, SIG)))
+    B(('after', 'let cell_mask = par.parse_U64(sat_len * sig_len)?;', 0,
+       'proof { crate::lemma_consume(verif_s0, 96, (sat_len * sig_len) as int); }'))
+    B(('before', 'Ok(%s {' % fr.struct.name, 1,
+       'proof { assert(decoded_ok(verif_s0, sat_mask, sig_mask, cell_mask, satellite_data@, signal_data@)); }'))
     sp.inserts.append(('after', 'let sig_len = mask_len_u32(sig_mask);', 0,
                        'proof { let a = sat_len as int; let b = sig_len as int; assert(a * b <= 64 * 32) by(nonlinear_arith) requires 0 <= a <= 64, 0 <= b <= 32; }'))
     vgen.emit_fn(vf, exp, path + ['fn:decode'], sp, label='%s::decode' % '::'.join(path[1:]), indent=ind, keep_pub=True)
 
+
+DEC_SPEC = '''
+// C10, decode side: the rows delivered are exactly the cells of the three masks read from the wire, in row-major order
+pub open spec fn decoded_ok(rest: Seq<bool>, sm: u64, gm: u32, cm: u64, s: Seq<%(SAT)s>, c: Seq<%(SIG)s>) -> bool {
+    let sats = crate::msg::ids64(sm, 64); let sigs = crate::msg::ids32(gm, 32); let n = sats.len() * sigs.len();
+    &&& rest.len() >= 96 && crate::bits_of_int(sm as int, 64) == rest.subrange(0, 64) && crate::bits_of_int(gm as int, 32) == rest.subrange(64, 96)
+    &&& if sm == 0 && gm == 0 { s.len() == 0 && c.len() == 0 } else {
+            let cells = crate::msg::cells_upto(sats, sigs, cm, n as int, n);
+            &&& 1 <= n <= 64 && rest.len() >= 96 + n && crate::bits_of_int(cm as int, n) == rest.subrange(96, 96 + n as int)
+            &&& s.len() == sats.len() && forall|i: int| 0 <= i < sats.len() ==> (#[trigger] s[i]).satellite_id == sats[i]
+            &&& c.len() == cells.len() && forall|i: int| 0 <= i < cells.len() ==> (#[trigger] c[i]).satellite_id == cells[i].0 && to_sig_spec(cells[i].1) == Some(c[i].signal_id)
+        }
+}
+'''
 
 ENC_POST_MSM = 'r is Ok && !final(asm).poison() ==> enc(*value) is Some && final(asm).bits() == old(asm).bits() + enc(*value)->Some_0'
 
